@@ -244,6 +244,10 @@ func genTailCase(r *rand.Rand, idx int) *ccase {
 		c.DB.Mode, c.DB.Twist, c.Client = "err-open", "", "ws-close"
 	case 2:
 		c.DB.Mode, c.DB.Shape, c.DB.Twist, c.Client = "ok", "empty", "", "ws-close"
+	case 3:
+		// the client leaves while a poll is in flight: the statement's rows are held until it has gone
+		c.DB.Mode, c.DB.ErrAt, c.DB.Shape, c.DB.Twist, c.Client = "hold", []int{0, 1}[idx/5%2], "few", "", "ws-read"
+		c.DB.Target = 1 + idx/5%2 // not the statement the session starts with: one of the polls that follow
 	}
 	return c
 }
